@@ -6,6 +6,7 @@ CONSTANTS
   Modes = {"xsec", "ktables"}
   RpRoutes = {"param", "attr"}
   Entries = {"model", "partial"}
+  PhysSet = {"rp", "ts", "dist"}
   Record = FALSE
   MaxSets = 0
   SVariant = "geometry_at_build"
